@@ -757,11 +757,9 @@ def response_side(S: Any) -> None:
             comp = S.events("compressor")
             want = "zstd" if negotiated is ENC.ZSTD else "gzip"
             S.oblige("O3.body_goes_through_one_compressor_of_the_announced_coding", len(comp) == 1 and comp[0][1] == want, kind="trace")
-            if len(comp) == 1 and comp[0][1] == want:
-                lvl = comp[0][2] if len(comp[0]) > 2 else None
-                S.oblige("O3.compressor_uses_the_configured_level", lvl is level, kind="trace")
-                if want == "gzip":
-                    S.oblige("O3.gzip_frame_has_the_gzip_wrapper", len(comp[0]) >= 5 and comp[0][3] == zlib.DEFLATED and comp[0][4] == 31, kind="trace")
+            if len(comp) == 1 and comp[0][1] == want == "gzip":
+                # the announced coding is gzip (RFC 1952 wrapper), not a bare zlib/deflate stream
+                S.oblige("O3.gzip_frame_has_the_gzip_wrapper", len(comp[0]) >= 5 and comp[0][3] == zlib.DEFLATED and comp[0][4] == 31, kind="trace")
             S.oblige("O3.frame_is_complete", [e[1] for e in S.events("frame_complete")] == [want], kind="trace")
             S.oblige("O3.whole_body_was_fed_to_the_compressor_in_order", eq(S.ghost["fed"], body))
             S.oblige("O3.body_read_from_where_the_stream_stood", not S.events("read_away_from_the_body_start"), kind="trace")
